@@ -1705,6 +1705,17 @@ impl Connection {
             _ => 2,
         };
         self.spaces[space].loss_probes = self.spaces[space].loss_probes.saturating_add(count);
+        // Handshake data that could not be sent yet because the congestion window is full (e.g. of
+        // 0-RTT data the peer cannot acknowledge before the handshake completes) must go out with
+        // this probe as well, or neither side can ever make progress.
+        for earlier in [SpaceId::Initial, SpaceId::Handshake] {
+            if earlier < space
+                && self.spaces[earlier].crypto.is_some()
+                && !self.spaces[earlier].pending.is_empty(&self.streams)
+            {
+                self.spaces[earlier].loss_probes = self.spaces[earlier].loss_probes.saturating_add(1);
+            }
+        }
         self.pto_count = self.pto_count.saturating_add(1);
         self.set_loss_detection_timer(now);
     }
@@ -2675,6 +2686,9 @@ impl Connection {
                 self.events.push_back(Event::Connected);
                 self.state = State::Established;
                 trace!("established");
+                // The loss detection timer ignores the Data space while handshaking: now that the
+                // handshake is complete, packets already in flight there (0-RTT) must be covered.
+                self.set_loss_detection_timer(now);
                 Ok(())
             }
             Header::Initial(InitialHeader {
